@@ -1,15 +1,24 @@
 """C10 — dependency container: lazy singletons, fixed precedence, safe failure.
 
-Theorems: lean/Goat/Props/C10.lean about lean/Goat/Model/DI.lean (mirror of app/dependency/provider.go).
+Theorems: lean/Goat/Props/C10.lean about lean/Goat/Model/DI.lean (mirror of app/dependency/provider.go
+including AddInjectors and NewStaticProvider, of app/injector/{map,multi,nil_injector}.go and of
+app/scope/datascope/injector.go; names and struct tags are text).
 Correspondence: harness/cmd/di (the real dependency.Provider; factories are closures interpreting
-data, InjectTo targets are reflect.StructOf types) against the compiled model driver m_di on generated
-programs (definitions of all four kinds in any order with duplicates, dependency graphs with
-cyclic/failing/nil/optional/injected edges, request histories of Get/InjectTo/Keys with late
-definitions), compared line by line: accepted/refused, ok/error with the top-level error kind,
-identity classes of the returned objects, the ordered list of factory invocations of each request,
-total invocation counters, key order.  Thorough adds every 3-name graph.
-Spec-vs-implementation: `di oracle` evaluates the property's clauses on the implementation alone;
-`di judge` does the same for one given program (the verdict on a model/implementation difference).
+data, InjectTo targets are reflect.StructOf types, injectors are the real map / data-scope / multi /
+nil injectors built from data, the static provider is NewStaticProvider over the running provider's
+own tables) against the compiled model driver m_di on generated programs, compared line by line:
+accepted/refused, ok/error with the top-level error kind, identity classes of the returned objects
+(nil included), the ordered list of factory invocations of each request, total invocation counters,
+key order (as a set for a static provider).  Two streams: the original one (definitions of all four
+kinds in any order with duplicates, dependency graphs with cyclic/failing/nil/optional/injected
+edges, request histories of Get/InjectTo/Keys with late definitions; thorough adds every 3-name
+graph) and the extended one (names from a pool with the empty name, `?a`, `??a`, `a?`, `?`; nil
+definitions; AddInjectors with map/scope/multi/nil injectors for the provider's own and other tag
+names, before and after the first resolution; struct fields with several tags; InjectTo of
+non-structs; switching to a static provider at any point; plus an exhaustive small space, `enumx`).
+Spec-vs-implementation: `di oracle` evaluates the property's clauses on the implementation alone
+(including a provider against its static twin); `di judge` does the same for one given program (the
+verdict on a model/implementation difference).
 """
 import collections
 import concurrent.futures
@@ -23,20 +32,31 @@ import lib
 META = dict(
     level_claimed=dict(
         category="proof",
-        text="Lean 4 theorems over all histories of Set/SetDefault/AddFactory/AddDefaultFactory/Get/InjectTo (any length, any "
-             "order, any factory dependency graph given as data) about an executable model of dependency.Provider: "
-             "termination without running out of fuel, empty resolution stack after every request, at most one successful "
-             "factory run per name and none after an instance exists, singleton answers for Get and injection, first explicit "
-             "definition beats every default in every registration order, all definitions refused after the first resolution, "
-             "required cycle gives an error, and top-level success of a name is equivalent to an inductive predicate on the "
-             "definitions alone (so no failed or optional request can change another answer).  The model is tied to the Go code "
-             "on every run by a differential over generated programs (5 000 quick / 500 000 thorough + all 3-name graphs).",
+        text="Lean 4 theorems over all histories of Set/SetDefault (object or nil)/AddFactory/AddDefaultFactory/AddInjectors/"
+             "Get/InjectTo (any length, any order, names any text including the empty one and `?`-prefixed ones, any factory "
+             "dependency graph and any injector tree given as data) about an executable model of dependency.Provider, of the "
+             "map / data-scope / multi / nil injectors and of NewStaticProvider: termination without running out of fuel, "
+             "empty resolution stack after every request, at most one successful factory run per name and none after an "
+             "instance exists, singleton answers for Get and injection, first explicit definition beats every default in "
+             "every registration order, all definitions and AddInjectors refused after the first resolution, required cycle "
+             "gives an error, top-level success of a name is equivalent to an inductive predicate on the definitions alone "
+             "(so no failed or optional request can change another answer); extra injectors never touch the provider and "
+             "the last registered one with a value wins a field; a static provider answers every history exactly like the "
+             "blocked original (same results, same factory runs) and refuses every definition; a nil definition is handed "
+             "out by Get and refused by InjectTo even for an optional field; exactly one `?` is stripped from a tag; the "
+             "only panic is InjectTo of a non-struct.  The model is tied to the Go code on every run by a differential over "
+             "generated programs (5 000 + 3 000 extended quick / 500 000 + 300 000 extended thorough + all 3-name graphs + "
+             "the exhaustive extended space).",
         design_ref="DESIGN.md 3 C10"),
     level_note="Trusted: Lean kernel (axioms propext/Classical.choice/Quot.sound only), the hand-written model's correspondence "
                "to /repo (differential; generator distribution in the evidence histogram), Go map/slice/reflect semantics as "
                "modelled (Block's range over a map is modelled point-wise because its body touches only the current key), the "
-               "harness's factory closures and identity-class canonicalisation.  Not modelled: extra injectors, "
-               "NewStaticProvider, Set(name, nil), empty names and names starting with '?'.",
+               "harness's factory closures and identity-class canonicalisation, its reading of the provider's private "
+               "tables (reflect/unsafe) when it builds the static provider.  Outside the model: InjectTo targets whose field "
+               "types do not accept the instance or that have unexported tagged fields, nil app.Injector values, user-written "
+               "injector types, a nil instances map handed to NewStaticProvider, a static provider created with another tag "
+               "name than the original, factories that panic (a recovered panic inside a factory leaves its name on the "
+               "resolution stack).",
     technique="Lean 4 proof (fuel-indexed big-step model, invariants by induction on fuel and on histories) + differential correspondence",
 )
 
@@ -68,6 +88,7 @@ def _account(args):
     programs = 0
     with open(ops_path) as fo, open(impl_path) as fi:
         h, ok, err = None, False, False
+        static = False
         for o, r in zip(fo, fi):
             o, r = o.rstrip("\n"), r.rstrip("\n")
             if o == "new":
@@ -75,14 +96,31 @@ def _account(args):
                     digests.add(h.digest())
                 h, ok, err = hashlib.blake2b(digest_size=8), False, False
                 programs += 1
+                static = False
                 continue
             h.update(o.encode() + b"\n")
-            kw = o.split(" ", 1)[0]
+            of = o.split(" ")
+            kw = of[0]
             rf = r.split(" ")
             head = rf[0]
             if head == "err" and len(rf) > 1:
                 head += ":" + rf[1]
+            if kw == "get" and r.startswith("inst nil"):
+                head = "inst-nil"
+            if kw in ("set", "setdefault") and len(of) == 3:
+                kw += "-nil"
             hist[kw + ":" + head] += 1
+            if static:
+                hist["after-static:" + kw + ":" + head] += 1
+            if kw == "static":
+                static = True
+            if len(of) > 1 and kw not in ("addinjectors", "inject", "injectbad"):
+                if of[1] == "~":
+                    hist["name:empty"] += 1
+                elif of[1].startswith("?"):
+                    hist["name:?-prefixed"] += 1
+            if kw == "inject" and "=" in o:
+                hist["field:extra-tag"] += 1
             if kw in ("get", "inject"):
                 ok |= head in ("inst", "ok")
                 err |= head.startswith("err")
@@ -258,12 +296,18 @@ def run(ctx):
     camp = Campaign(ctx)
     n_prog = ctx.pick(5000, 500000)
     shards = ctx.pick(4, SHARDS)
+    n_ext = ctx.pick(3000, 300000)
     ctx.rule = ("%d generated programs (%d shards, seeds VERIF_SEED*1000+k): name pool 1-6 plus one undefined name, "
                 "definitions of all four kinds in random order with duplicates, factories with 0-3 dependencies "
                 "(required/optional, dp.Get/dp.InjectTo, self and cyclic edges allowed, outcome ok/fail/nil), request "
                 "histories of Get/InjectTo/Keys with early requests and late definitions; thorough adds all 571 787 "
-                "3-name graphs; non-trivial = the program has at least one successful and one failing request; "
-                "distinct = distinct op-line sequences (hashed)" % (n_prog, shards))
+                "3-name graphs.  Extended stream: %d more programs (`di genx`) over 3-6 names drawn from "
+                "a ?a ??a a? ~(empty) ? b ?b plus one undefined name, definitions with nil objects, AddInjectors calls "
+                "(map/data-scope/multi/nil injectors, tag name 0 = the provider's own or 1/2, keys from the pool, nil "
+                "values) before and after the first resolution, fields with extra tags, InjectTo of non-structs, `static` "
+                "at any point; plus `di enumx`: 7x7 definitions of a and ?a x 8 injector sets x static or not (784 "
+                "programs, 11 requests each).  non-trivial = the program has at least one successful and one failing "
+                "request; distinct = distinct op-line sequences (hashed)" % (n_prog, shards, n_ext))
     # --- corpus first (one shard of its own)
     corpus = ctx.path("corpus.ops")
     with open(corpus, "w") as h:
@@ -276,8 +320,17 @@ def run(ctx):
     # --- generated programs
     def gen_shard(k):
         return camp.shard("gen%d" % k, ["gen", str(n_prog // shards)], ctx.seed * 1000 + k)
-    with concurrent.futures.ThreadPoolExecutor(max_workers=shards) as ex:
-        work += list(ex.map(gen_shard, range(shards)))
+    def genx_shard(k):
+        return camp.shard("genx%d" % k, ["genx", str(n_ext // shards)], ctx.seed * 1000 + 500 + k)
+    with concurrent.futures.ThreadPoolExecutor(max_workers=2 * shards) as ex:
+        f1 = [ex.submit(gen_shard, k) for k in range(shards)]
+        f2 = [ex.submit(genx_shard, k) for k in range(shards)]
+        f3 = ex.submit(lambda: camp.shard("enumx", ["enumx", "0", "1"], ctx.seed))
+        work += [f.result() for f in f1]
+        xwork = [f.result() for f in f2] + [f3.result()]
+        work += xwork
+    ctx.extra["extended_programs"] = sum(ctx.grep_count("^new$", w[0]) for w in xwork)
+    ctx.extra["exhaustive_extended_programs"] = ctx.grep_count("^new$", xwork[-1][0])
     # --- exhaustive 3-name graphs (thorough)
     if not ctx.quick():
         def enum_shard(k):
@@ -296,22 +349,30 @@ def run(ctx):
             ctx.distinct |= digests
             camp.programs += programs
     ctx.extra["programs"] = camp.programs
-    for start, prog in list(_programs(work[-1][0] if ctx.quick() else work[1][0]))[:3]:
+    for start, prog in list(_programs(work[1][0]))[:2] + list(_programs(xwork[0][0]))[:3]:
         impl, model = camp.both(prog)
         ctx.samples.append(dict(ops=prog, impl=impl, model=model))
     for want in ("get:inst", "get:err:missing", "get:err:failed", "get:err:nil", "inject:ok", "inject:err:failed",
-                 "set:refused", "setdefault:refused", "factory:refused", "deffactory:refused", "set:ok", "keys:keys"):
+                 "set:refused", "setdefault:refused", "factory:refused", "deffactory:refused", "set:ok", "keys:keys",
+                 "get:inst-nil", "inject:err:nildep", "inject:err:inj0", "inject:err:inj1", "inject:err:missing",
+                 "addinjectors:ok", "addinjectors:refused", "static:ok", "injectbad:panic", "set-nil:ok",
+                 "setdefault-nil:ok", "after-static:get:inst", "after-static:inject:ok", "after-static:set:refused",
+                 "after-static:factory:refused", "after-static:addinjectors:refused", "name:empty", "name:?-prefixed",
+                 "field:extra-tag"):
         if not ctx.histogram.get(want):
             ctx.notes.append("coverage gap: no `%s` line in this campaign" % want)
     ctx.notes.append("model branches never observable at top level: Err.cyclic (the stack is empty there, theorem "
                      "stack_clean; nested occurrences surface as `failed` or are swallowed by optional edges) and "
                      "Err.fuel (theorem fuel_sufficient; the driver would append FUEL-EXHAUSTED)")
-    if ctx.grep_count("FUEL-EXHAUSTED", work[-1][2] or "/dev/null"):
+    if any(ctx.grep_count("FUEL-EXHAUSTED", w[2] or "/dev/null") for w in work):
         ctx.notes.append("model ran out of fuel on some program")
     # --- Spec vs implementation
     ofails, ocrash = _oracle(ctx, camp, ctx.pick(6000, 320000), shards)
     concrete = bool(ofails or ocrash)
     _report_oracle(ctx, camp, ofails, ocrash)
+    for want in ("extra_injector_order", "static_provider_agrees", "static_provider", "nil_definition"):
+        if not ctx.histogram.get("oracle:" + want):
+            ctx.notes.append("coverage gap: the oracle never evaluated the clause `%s`" % want)
     # --- verdicts on differences
     for ops, a, err in camp.crashes[:2]:
         done = ctx.count_lines(a)
@@ -340,12 +401,19 @@ def run(ctx):
             ctx.obligation_violations([o for o in ctx.obligations if not o["ok"]])
     ctx.assumptions += [
         "provider used from one goroutine (the property is sequential; Provider has no locks)",
-        "factories interact with the provider only through Get and InjectTo and are deterministic functions of what they receive",
+        "factories interact with the provider only through Get and InjectTo, are deterministic functions of what they receive and do not panic",
+        "InjectTo targets are pointers to structs whose tagged fields are exported and accept the instances (or one of the four non-struct shapes)",
+        "a static provider is built from a blocked provider's own tables with the same tag name",
     ]
     ctx.trusted_base.append("harness factory closures interpret the same dependency data as the model (ordered deps, "
-                            "required/optional, Get/InjectTo edges, outcome ok/fail/nil); consecutive InjectTo edges share one struct")
+                            "required/optional, Get/InjectTo edges, outcome ok/fail/nil); every InjectTo edge uses its own "
+                            "one-field struct; injectors are built from the same data as the model's (first entry of a key wins)")
+    ctx.trusted_base.append("`static`: the harness calls Block, reads the provider's private tables by reflection and hands "
+                            "copies (default factories overridden by explicit ones, instances, injectors) to NewStaticProvider")
     ctx.trusted_base.append("error kinds are derived from which factory the provider invoked for the requested name and what "
-                            "it returned, never from message text; object identity from pointer equality, reported as classes")
+                            "it returned, which registered injector (wrapped by a recorder) returned an error, and whether a nil "
+                            "definition was accepted for the name - never from message text; object identity from pointer "
+                            "equality, reported as classes")
 
 
 def replay(ctx, path):
